@@ -12,7 +12,7 @@ def keyfn(p, clause, detail):
     if len(body) <= 6:   # TLC-enumerated small program: the statement kinds in order identify the class
         sig = ",".join(s["k"] + (hex(s["e"]["v"])[2:] if s["k"] in ("stareq", "ateq") else "") for s in body)
         return f"{clause}/small:{sig}"
-    kinds = sorted({s["k"] for s in body if s["k"] in ("stareq", "ateq", "incbin", "for", "apply", "scope")})
+    kinds = sorted({s["k"] for s in body if s["k"] in ("stareq", "ateq", "incbin", "for", "apply", "scope", "map")})
     return f"{clause}/{p['rom']}/{'+'.join(kinds)}"
 
 
